@@ -268,7 +268,7 @@ def handle : List String → String
       else if op == "cli" then
         let m := match recvResponse H fs with
           | .ok (s, hm) => s!"ok status {s} headers {showFields (hmIter hm)}"
-          | .err e => showRefusalFull (siteRecvResponse e)
+          | .err e => showRefusalFull (siteRecvResponse (recvResponseSecond H fs) e)
           | .panic => "panic"
         m ++ " ## " ++ specCli H fs
       else if op == "trl" then
